@@ -244,10 +244,9 @@ class JniInterface(JniBaseType):
     def header_includes(self) -> set[str]:
         dependency_headers = super().header_includes
         if any(method.asynchronous for method in self.decl.methods):
-            dependency_headers.update([
-                quote(PurePosixPath("pydjinni/coroutine/task.hpp")),
-                quote(PurePosixPath("pydjinni/coroutine/schedule.hpp"))
-            ])
+            dependency_headers.add(quote(PurePosixPath("pydjinni/coroutine/task.hpp")))
+            if "cpp" in self.decl.targets:
+                dependency_headers.add(quote(PurePosixPath("pydjinni/coroutine/schedule.hpp")))
             if "java" in self.decl.targets:
                 dependency_headers.update([
                     quote(PurePosixPath("pydjinni/coroutine/callback_awaitable.hpp")),
